@@ -193,9 +193,12 @@ end Paroxy.Props.C02
 
 `dumpP h [] [] t` is the flat AST of a (tweaked) tree `t`; `nodeMatches` / `wholeSpanMatch?` are the hand
 matchers of the `node` / `whole_span` patterns (validated against the real engine by harness/c01.py and
-harness/c02_tree.py); `PreorderMonotone`: line numbers never decrease along the pre-order enumeration of
-the positioned nodes (checked on every real tree by harness/c02_tree.py; it fails for a decorated
-definition whose decorator is dumped after the body — repaired by d0d94f6 — and for nothing else seen). -/
+harness/c02_tree.py). Hypotheses (Bool-valued, evaluated on every real tree, status reported in the
+evidence; the span checks of the harness are made on every tree whatever their status):
+`lastDescMono` — the line of a positioned node is not after the line of its last positioned strict
+descendant in dump order (holds on all real trees seen); the former `PreorderMonotone` — line numbers never
+decrease along the whole pre-order enumeration — is stronger and fails on decorated definitions and
+classes and on multi-line conditional expressions (about a fifth of the generated trees). -/
 namespace Paroxy.Props.C02
 open Paroxy.Flat
 
